@@ -514,7 +514,9 @@ def oracle(case):
                 cfg.update(auto_data=False)
             method = rng.choice(["POST", "PUT", "PATCH"])
             env = environ(method, qs, body, rng.choice(["application/x-www-form-urlencoded",
-                                                        "application/x-www-form-urlencoded; charset=utf-8"]))
+                                                        "application/x-www-form-urlencoded; charset=utf-8",
+                                                        "application/x-www-form-urlencoded ; charset=utf-8",
+                                                        "application/x-www-form-urlencoded\t;charset=utf-8"]))
             res = {}
 
             def fn(req):
@@ -557,7 +559,8 @@ def oracle(case):
                 charset, body = "utf-8", text.encode()
             ctype = rng.choice(["application/json", "application/javascript", "application/merge-patch+json"])
             if charset:
-                ctype += "; charset=" + charset
+                # optional white space around the parameter separator (RFC 9110 5.6.6)
+                ctype += rng.choice(["; ", "; ", ";", " ; ", "\t;"]) + "charset=" + charset
             cfg = {}
             if rng.random() < 0.3:
                 cfg.update(data_size=rng.choice([0, 3]), cached_size=rng.choice([0, 2, 65365]))
